@@ -669,10 +669,6 @@ def _by_perm(lst, perm):
     return [lst[p] for p in perm]
 
 
-class _Abort(Exception):
-    pass
-
-
 def _perturbed(fs, t):
     """probe number t: relative perturbation of size 1e-12 .. 1e-13 whose sign / size pattern over the entries is a fixed
     hash of (t, mode, row, column); zeros stay zeros"""
